@@ -75,7 +75,12 @@ def receiver_level(ctx, rng, n, pid):
         f2 = tx.gap_ht < 1.31 and hb == 2 and (tx.mask >> 2) & 1 and ((tx.mask >> 3) & 3) == 0b11
         c = rxlib.oracle_exact(ev, tx.H, want_som=hb >= 2, want_eom=want_eom) if (tb != 1 or fast_ok) else \
             rxlib.oracle_exact([e for e in ev if e["kind"] != "eom"], tx.H, want_som=hb >= 2, want_eom=False)
-        if c:
+        if rxlib.is_f9(c):
+            if "F9" in known_defs:
+                ctx.known.append(known_defs["F9"]["line"]) if known_defs["F9"]["line"] not in ctx.known else None
+            elif pid != "C08":       # C08 is about delay, not about the text
+                ctx.violation("property", c[len(rxlib.F9_MARK):].strip(), {"input": line, "tx": tx.describe()})
+        elif c:
             if f2 and "F2" in known_defs:
                 ctx.known.append(known_defs["F2"]["line"]) if known_defs["F2"]["line"] not in ctx.known else None
             else:
@@ -103,8 +108,13 @@ def run(ctx):
     scs = txscen.single_transmissions(rng, 64 * (6 if quick else 60), masks=masks) + txscen.stale_history(rng, 30 if quick else 300)
     mism, fam, nontriv, samples = run_family(ctx, "C02", txoracle.check_c02, scs, rng)
     cases, mism2, lat_som, lat_eom = receiver_level(ctx, rng, 28 if quick else 420, "C02")
+    ctx.coverage["known_finding_F9_witness_reproduces"] = rxlib.run_f9_witness(ctx, "C02")
+    insts = [i for i in asmlib.theorem_instances(rng.fork("instances"), 180 if quick else 6000) if i[0].startswith("C02")]
+    inst_ok, inst_names = asmlib.check_instances(ctx, insts)
+    ctx.coverage["theorem_instances_confirmed_on_impl"] = inst_ok
+    ctx.coverage["theorem_instances"] = inst_names
     ctx.coverage.update({
-        "evaluations": len(scs) + len(cases), "distinct_nontrivial": nontriv + len(cases),
+        "evaluations": len(scs) + len(cases) + len(insts), "distinct_nontrivial": nontriv + len(cases),
         "rule": "transport level: every presence mask (64) x header->trailer gap classes x pauses x header lengths x optional "
                 "arbitrary corruption of the one missing header burst, idle polled at every symbol; stale-history family; "
                 "receiver level: masks through real audio at standard/random rates with impairments. Non-trivial = at least "
